@@ -142,6 +142,10 @@ func dirname(path string) string {
 }
 
 func realPath(p string) string {
+	if p == "" {
+		// empty path stands for an unresolvable name, EvalSymlinks would clean it to "."
+		return ""
+	}
 	f, err := filepath.EvalSymlinks(p)
 	if err != nil {
 		return ""
